@@ -66,6 +66,8 @@ func c15Prefixes() map[string][]string {
 		"cp": {"a/s1/F+1", "a/s2/F+1", "TR/F"},
 		// s1 collected, re-created under a new ref, restart => duplicate series records
 		"dup": {"a/s1/F+1", "a/s2/F+1", "tr/F", "a/s1/F+1", "re"},
+		// a live series with two metadata versions and a tombstone that will straddle a truncation time
+		"md": {"a/s2/F+1", "a/s1/F+1", "md/s1", "md/s1", "a/s1/F+1", "del/s1/F-1/F"},
 	}
 }
 
@@ -1063,11 +1065,11 @@ func c15Compare(a, b *c15View, q *c15Req, op, ctx string) *vx.Fail {
 func (x *c15Sys) Ops() []string {
 	ops := []string{"a/s1/F+1", "a/s2/F+1", "a/new/F+1"}
 	if x.cfg.Alphabet != "small" {
-		ops = append(ops, "a/s2/F", "a/s1/F+1/x", "a/s1/F+1/h", "md/s1", "del/s1/F/F", "del/all/min/max", "ev/s1", "rot")
+		ops = append(ops, "a/s2/F", "a/s1/F+1/x", "a/s1/F+1/h", "md/s1", "del/s1/F/F", "del/s1/F-1/F", "del/all/min/max", "ev/s1", "rot")
 	}
 	ops = append(ops, "tr/F+1", "tr/F", "TR/F+1", "TR/F", "re")
 	if x.cfg.Alphabet == "small" {
-		ops = append(ops, "md/s1", "del/s1/F/F")
+		ops = append(ops, "md/s1", "del/s1/F-1/F")
 	}
 	return ops
 }
